@@ -359,6 +359,7 @@ def opSEQ (args obs : List String) : Option DecOut := do
               | some a, some c => a == c
               | _, _ => false
             (if (res == "ok") == acked then [] else [s!"C04 Send={res} but peer-acknowledged-this-chunk={acked}"]) ++
+            (if res != "ok" && acked then ["C08 a send failed although the peer delivered the ack for its own chunk (whole, possibly in fragments): the send was not matched with its ack"] else []) ++
             (if res == "ok" && !acked then ["C08 a send was matched with a response that is not the ack for its own chunk",
                 "C09 Send returned nil although the response was not a complete conforming ack for its chunk (a failure while the ack is read must be an error)"] else []) ++
             (if clean && !pre.isEmpty then ["C04 part of an earlier conforming ack was left unread on the connection"] else []) ++
